@@ -165,6 +165,7 @@ Content(src) ==
       [] src.t = "m" -> LET m == mg[src.n] IN
                         MergedOf([i \in 1..Len(m.srcs) |-> AsPart(m.srcs[i])], m.merge, m.dupsort)
       [] src.t = "f" -> FsContent(src.n, FsView(src.n))
+      [] src.t = "p" -> [t |-> src.tab, ord |-> TRUE]            \* a file of a fileset handed to a partition merger
 \* What a source contributes when it is iterated by a merger from the start. The iterator protocol has a single failure
 \* value: a merger used as a source whose merge function fails at an entry returns failure there (C04, judged on that
 \* merger's own iterators), and the merger above it cannot tell this from the end of the source - the source ends before
@@ -348,6 +349,21 @@ FsReloadNow(f) == /\ f \in DOMAIN fs.h
                      THEN fs' \in {[fs EXCEPT !.sh[set] = Reloaded(set)], [fs EXCEPT !.sh[set].forced = TRUE]}
                      ELSE fs' = [fs EXCEPT !.sh[set].forced = TRUE]          \* never while an iterator is open
                   /\ UNCHANGED <<disk, wr, rd, us, mg, so, it, pl, judge>>
+\* mtbl_fileset_partition (deprecated): calls reload(), then builds two mergers with the handle's merge options over the
+\* readers of ALL files of the shared set (the handle's own filename / reader filters do not apply) - those whose name the
+\* callback accepts, and the others. The mergers borrow the fileset's readers: they are valid until the next reload that
+\* unloads one (the documentation says so; histories keep the setfile unchanged while partition mergers are alive).
+FsPartition(f, chars, m1, m2, mc) ==
+    /\ f \in DOMAIN fs.h
+    /\ \E fs1 \in MaybeReload(f, fs) :
+         LET h == fs1.h[f]
+             v == fs1.sh[h.set].view
+             acc(e) == \E j \in 1..Len(chars) : chars[j] = e.bc
+             part(yes) == LET w == SelectSeq(v, LAMBDA e : acc(e) = yes)
+                          IN [j \in 1..Len(w) |-> [t |-> "p", n |-> 0, tab |-> w[j].t]]
+             rec(yes) == [srcs |-> part(yes), merge |-> h.merge, failtok |-> -1, dupsort |-> h.dupsort, mc |-> mc]
+         IN fs' = fs1 /\ mg' = Upd(Upd(mg, m1, rec(TRUE)), m2, rec(FALSE))
+    /\ UNCHANGED <<disk, wr, rd, us, so, it, pl, judge>>
 \* a source operation through handle f: the owed reload has happened; then the iterator pins its snapshot
 FsOpen(i, f, b, null) ==
     /\ f \in DOMAIN fs.h
